@@ -241,7 +241,7 @@ func newStdSvc(v stdVariant) (*stdSvc, error) {
 	// endpoints where near-miss Route entries lead (C13)
 	for _, ap := range []struct {
 		d, p int
-	}{{1, 5099}, {2, 5099}, {3, 5099}, {2, 5060}, {3, 5060}, {60, 5062}, {60, 5063}, {60, 5064}} {
+	}{{1, 5099}, {2, 5099}, {3, 5099}, {2, 5063}, {2, 5060}, {3, 5060}, {60, 5062}, {60, 5063}, {60, 5064}} {
 		add(in.hub.udpEP(fmt.Sprintf("nearmiss%d", ap.d), ip(ap.d), ap.p))
 	}
 	return s, nil
